@@ -554,28 +554,43 @@ class Builder:
                         if not t:
                             continue
                         q = cp + 1 + t.end() - 1  # index of '?'
-                        # start of the expression: after the `=` of the enclosing `let`
+                        # start of the operand: walk back over the postfix chain `a.b(..).c::d(..)`
                         k = a + mm.start()
-                        depth = 0
-                        eq = None
-                        while k > a:
-                            ch = m[k]
-                            if ch in ")]}":
-                                depth += 1
-                            elif ch in "([{":
-                                if depth == 0:
-                                    break
-                                depth -= 1
-                            elif ch == ";" and depth == 0:
+                        while True:
+                            j = k
+                            while j > a and m[j - 1] in " \t\n":
+                                j -= 1
+                            if j > a and m[j - 1] in ")]":
+                                depth = 0
+                                while j > a:
+                                    j -= 1
+                                    if m[j] in ")]":
+                                        depth += 1
+                                    elif m[j] in "([":
+                                        depth -= 1
+                                        if depth == 0:
+                                            break
+                                # optional callee name / generic args before the bracket
+                                while j > a and (m[j - 1].isalnum() or m[j - 1] == "_"):
+                                    j -= 1
+                            elif j > a and (m[j - 1].isalnum() or m[j - 1] == "_"):
+                                while j > a and (m[j - 1].isalnum() or m[j - 1] == "_"):
+                                    j -= 1
+                            else:
                                 break
-                            elif ch == "=" and depth == 0 and m[k - 1] not in "=!<>" and m[k + 1] not in "=>":
-                                eq = k
-                                break
-                            k -= 1
-                        if eq is None:
-                            raise LostAnchor("R14: no `let .. =` before .%s(..)? in %s" % (meth, qual))
-                        edits.append(Edit(eq + 1, eq + 1, [Seg(" match", "repo", fn=qual)]))
-                        edits.append(Edit(q, q + 1, [Seg(" { Ok(vx_v) => vx_v, Err(vx_e) => return Err(vx_e.into()) }", "repo", fn=qual)]))
+                            k = j
+                            jj = k
+                            while jj > a and m[jj - 1] in " \t\n":
+                                jj -= 1
+                            if jj > a and m[jj - 1] == ".":
+                                k = jj - 1
+                                continue
+                            if jj > a + 1 and m[jj - 2:jj] == "::":
+                                k = jj - 2
+                                continue
+                            break
+                        edits.append(Edit(k, k, [Seg("(match ", "repo", fn=qual)]))
+                        edits.append(Edit(q, q + 1, [Seg(" { Ok(vx_v) => vx_v, Err(vx_e) => return Err(vx_e.into()) })", "repo", fn=qual)]))
                         self.count("R14")
             if rule[0] == "R10":
                 # E.get_mut(&k) on a HashMap<u32, _> place listed in the unit -> vx_hashmap_get_mut(&mut E, &k)
